@@ -70,6 +70,37 @@ def holds(spec, toks):
         return any(toks[i] == '(' and toks[i + 1] == hd
                    and toks[i + 2] not in '()' and toks[i + 3] == ')'
                    for i in range(len(toks) - 3))
+    if mode == 'prod2':
+        # some application ( head s t ) to exactly two different arguments,
+        # neither of them a numeral
+        hd = spec['head']
+        if not all(m in toks for m in spec.get('markers', [])):
+            return False
+
+        def item(i):
+            # end (exclusive) of the balanced item starting at i, or None
+            if i >= len(toks) or toks[i] == ')':
+                return None
+            if toks[i] != '(':
+                return i + 1
+            d = 0
+            for j in range(i, len(toks)):
+                d += (toks[j] == '(') - (toks[j] == ')')
+                if d == 0:
+                    return j + 1
+            return None
+
+        for i in range(len(toks) - 4):
+            if toks[i] == '(' and toks[i + 1] == hd:
+                a = item(i + 2)
+                b = item(a) if a else None
+                if b and b < len(toks) and toks[b] == ')':
+                    x, y = toks[i + 2:a], toks[a:b]
+                    if x != y and not any(
+                            len(z) == 1 and z[0].replace('.', '').isdigit()
+                            for z in (x, y)):
+                        return True
+        return False
     if mode == 'member':
         return toks in spec['members']
     if mode == 'always':
@@ -94,6 +125,10 @@ def main():
     v = holds(spec, toks) if err is None else False
     if spec.get('sleep_ms'):
         time.sleep(spec['sleep_ms'] / 1000.0)
+    sw = spec.get('slow_without')
+    if sw and v and sw['token'] not in toks:
+        # a solver that is slower on some of the inputs it accepts
+        time.sleep(sw['ms'] / 1000.0)
     d = spec.get('delay_ms', 0)
     if d:
         time.sleep((h(spec.get('delay_seed', 0), *toks) % (d + 1)) / 1000.0)
@@ -118,6 +153,15 @@ def main():
         sched.client_wait(spec['sched_sock'],
                           {'pid': os.getpid(), 'ppid': os.getppid(),
                            'verdict': v, 'ntoks': len(toks)})
+    if beh.get('ticks_ms'):
+        # a hanging command that reports progress: one flushed line every
+        # ticks_ms milliseconds, forever
+        k = 0
+        while True:
+            sys.stdout.write('tick %d\n' % k)
+            sys.stdout.flush()
+            k += 1
+            time.sleep(beh['ticks_ms'] / 1000.0)
     if beh.get('sleep_ms'):
         time.sleep(beh['sleep_ms'] / 1000.0)     # e.g. beyond --timeout
     if beh.get('kill'):
